@@ -221,9 +221,12 @@ def readObjectBuf : Nat → Nat → SB → SB × Except Err Obj
             match hardErr e3 with
             | some e => (s3, .error e)
             | none =>
-              let (s4, buf6, _) := peekN src 6 s3
-              if startsWith buf6 kw_stream then readStreamHeadBuf src s4
-              else (s4, .ok (.dict d))
+              let (s4, buf6, e6) := peekN src 6 s3
+              match e6 with
+              | some e => (s4, .error e)     -- a read error, not the end of the input (fix D35)
+              | none =>
+                if startsWith buf6 kw_stream then readStreamHeadBuf src s4
+                else (s4, .ok (.dict d))
         else if c == 40 then
           (match readStringBuf src sf (adv 1 s1) with
            | (s2, .ok v) => (s2, .ok (.str v))
